@@ -23,6 +23,7 @@ def module_meta(path):
 
 
 def main():
+    READY = set(json.load(open(os.path.join(HERE, "tools", "ready.json"))))
     checks = []
     claimed = set()
     for fn in sorted(os.listdir(os.path.join(HERE, "checks"))):
@@ -30,7 +31,7 @@ def main():
             continue
         meta = module_meta(os.path.join(HERE, "checks", fn))
         pid = meta["PROPERTY"]
-        if meta.get("READY", False) is not True:
+        if pid not in READY:  # tools/ready.json: reviewed by the lead
             continue
         claimed.add(pid)
         checks.append(
